@@ -30,3 +30,8 @@ def run(check: Check, repo: Repo, tier: str) -> None:
     M.cycle_guard(check, repo)
     M.arg_normalise(check, repo)
     S.wrapper_pairing(check, repo, [(M.MOD, "do_types_conflict")])
+    from rules import kind_tables as KT
+    KT.kind_table(check, repo, repo.func(M.MOD, "do_types_conflict"), "type1", "type2",
+                  KT.spec_do_types_conflict("type1", "type2"), S.predicate_classes(repo),
+                  kinds=("Scalar", "Enum", "Object", "Interface", "Union", "List", "NonNull"), what="(output kinds)")
+    check.floor("KIND-TABLE", 1, "kind-dispatch functions folded into decision tables")
